@@ -1630,8 +1630,19 @@ func c15BuilderCase(c *kit.Case) {
 	fontSet := false
 	broken := ""
 	seenOps := 0
+	// segments handed out by Harvest in the middle of the walk (the Builder
+	// goes on with the same graphics state); they are looked at again at the end
+	var segments []*content.Operators
+	harvest := c15Call{"Harvest", func(b *builder.Builder) {
+		seg, err := b.Harvest()
+		if err == nil {
+			segments = append(segments, seg)
+		}
+	}}
+	var fed []content.Operator // every operator as it was when the Builder emitted it
 	feed := func() {
 		for _, op := range b.Stream[seenOps:] {
+			fed = append(fed, content.Operator{Name: op.Name, Args: append([]pdf.Object(nil), op.Args...)})
 			if broken == "" {
 				broken = k.apply(string(op.Name))
 			}
@@ -1647,9 +1658,15 @@ func c15BuilderCase(c *kit.Case) {
 			refused++
 			c.R.Seen("builder-refused-calls", call.name)
 			b = newBuilder()
+			segments = nil
 			for _, a := range accepted {
 				a.do(b)
 			}
+			nfed := 0
+			for _, seg := range segments {
+				nfed += len(seg.Ops)
+			}
+			fed = fed[:min(len(fed), nfed+len(b.Stream))]
 			if b.Err != nil || len(b.Stream) != seenOps {
 				c.Violationf("builder/replay-differs", "replaying the accepted calls %v on a fresh Builder gave Err=%v and %d operators (was %d)",
 					names, b.Err, len(b.Stream), seenOps)
@@ -1659,6 +1676,9 @@ func c15BuilderCase(c *kit.Case) {
 		}
 		accepted = append(accepted, call)
 		names = append(names, call.name)
+		if call.name == "Harvest" {
+			seenOps = 0 // the Builder starts a new segment
+		}
 		feed()
 		return true
 	}
@@ -1672,6 +1692,9 @@ func c15BuilderCase(c *kit.Case) {
 			cat = kit.Pick(r, c15AllCats)
 		}
 		try(c15RandomCall(r, cat, exts, mcs))
+		if r.Chance(1, 12) {
+			try(harvest)
+		}
 	}
 	closing := r.Chance(4, 5)
 	for guard := 0; closing && broken == "" && !k.balanced() && guard < 200; guard++ {
@@ -1710,6 +1733,22 @@ func c15BuilderCase(c *kit.Case) {
 	if err != nil {
 		c.Violationf("builder/harvest-error", "Harvest after accepted calls %v: %v", names, err)
 		return
+	}
+	if len(segments) > 0 {
+		// the page is the concatenation of all segments; the ones handed out
+		// earlier must still hold what the Builder emitted then
+		all := &content.Operators{}
+		for _, seg := range segments {
+			all.Ops = append(all.Ops, seg.Ops...)
+		}
+		all.Ops = append(all.Ops, ops.Ops...)
+		ops = all
+		c.R.Count("builder_walks_with_several_segments", 1)
+		if c15CanonSeq(ops.Ops) != c15CanonSeq(fed) {
+			key, detail := c15DiffKey(fed, ops.Ops)
+			c.Violationf("builder/harvested-segment-changed/"+key, "Builder(%v, %s) calls %v\nthe segments handed out by Harvest no longer hold the operators that were emitted\n%s", ct, version, names, detail)
+			return
+		}
 	}
 	c.R.Count("builder_walks", 1)
 	c.R.Count("builder_operators", int64(len(ops.Ops)))
